@@ -178,7 +178,13 @@ class FnAnalysis:
                     for x in ast.walk(t.args[1])):
             v = t.args[0].id
             cur = st['vars'][v]
-            yes, no = cur & {'INT'}, cur - {'INT'}
+            # `isinstance(x, int)` alone is false for numpy integers: the
+            # other arm can still hold an integer seed
+            only_builtin = not any(
+                U(x) in ('np.integer', 'numbers.Integral', 'np.int64',
+                         'np.int32') for x in ast.walk(t.args[1]))
+            yes, no = cur & {'INT'}, (cur if only_builtin
+                                      else cur - {'INT'})
             if neg:
                 yes, no = no, yes
             a['vars'][v], b['vars'][v] = yes, no
